@@ -56,6 +56,7 @@ type sel struct {
 	P, E, Cm []uint32
 	OK       bool
 	Err      string
+	Panic    string // the code under test panicked (a selection that panics is not well formed)
 }
 
 func indexSet(n int, kind string) []uint32 {
@@ -155,7 +156,14 @@ func eqU32(a, b []uint32) bool {
 }
 
 // composition of the three calcParticipantPeers calls, as buildParticipantConfig does it
-func coreSelect(vrf vconfig.VRFValue, c *vconfig.ChainConfig) sel {
+func coreSelect(vrf vconfig.VRFValue, c *vconfig.ChainConfig) (out sel) {
+	if rec, p := ev.Guard(func() { out = coreSelectRaw(vrf, c) }); p {
+		return sel{Err: "panic", Panic: fmt.Sprint(rec)}
+	}
+	return out
+}
+
+func coreSelectRaw(vrf vconfig.VRFValue, c *vconfig.ChainConfig) sel {
 	s := 0
 	P := vbft.VerifCalcParticipantPeers(vrf, nil, c, s, s+vconfig.MAX_PROPOSER_COUNT)
 	if uint32(len(P)) < c.C+1 {
@@ -176,7 +184,11 @@ func coreSelect(vrf vconfig.VRFValue, c *vconfig.ChainConfig) sel {
 }
 
 func prodSelect(srv *vbft.Server, blkNum uint32, blk *vbft.Block, c *vconfig.ChainConfig) sel {
-	pc, err := srv.VerifBuildParticipantConfig(blkNum, blk, c)
+	var pc *vbft.BlockParticipantConfig
+	var err error
+	if rec, p := ev.Guard(func() { pc, err = srv.VerifBuildParticipantConfig(blkNum, blk, c) }); p {
+		return sel{Err: "panic", Panic: fmt.Sprint(rec)}
+	}
 	if err != nil {
 		return sel{Err: err.Error()}
 	}
@@ -247,10 +259,52 @@ func twoByteVrf(a, b byte) vconfig.VRFValue {
 	return v
 }
 
+type namedCfg struct {
+	name string
+	cfg  *vconfig.ChainConfig
+}
+
+var altKeys []*polyenv.Acct
+var altConf *config.VBFTConfig
+
+// chain configs a server may have INSTALLED while it is handed d/c for the next round (config-change block):
+// grown and shrunk validator sets, another peer set of the same size, another C, another table over the same peers.
+func installedAlternatives(d cfgDesc, c *vconfig.ChainConfig) []namedCfg {
+	mk := func(n int, kind string, keyOff int, idxOff uint32, h uint32) *vconfig.ChainConfig {
+		idx := indexSet(n, kind)
+		peers := make([]*config.VBFTPeerInfo, n)
+		for i := range peers {
+			peers[i] = &config.VBFTPeerInfo{Index: idx[i] + idxOff, PeerPubkey: altKeys[keyOff+i].PubHex}
+		}
+		cc, err := vconfig.GenesisChainConfig(altConf, peers, h)
+		if err != nil {
+			panic(err)
+		}
+		return cc
+	}
+	out := []namedCfg{
+		{"N+1", mk(d.N+1, d.Idx, 0, 0, d.Height)},
+		{"N+2", mk(d.N+2, d.Idx, 0, 0, d.Height)},
+		{"N-1", mk(d.N-1, d.Idx, 0, 0, d.Height)},
+		{"N-2", mk(d.N-2, d.Idx, 0, 0, d.Height)},
+		{"other-peers-same-N", mk(d.N, d.Idx, 5, 100, d.Height)},
+		{"same-peers-other-table", mk(d.N, d.Idx, 0, 0, d.Height+7)},
+	}
+	up := cloneCfg(c)
+	up.C = c.C + 1
+	out = append(out, namedCfg{"C+1", up})
+	if c.C > 0 {
+		dn := cloneCfg(c)
+		dn.C = c.C - 1
+		out = append(out, namedCfg{"C-1", dn})
+	}
+	return out
+}
+
 type tally struct {
 	evals, selected, noSel        int64
 	prodEvals, prodSel, coreEvals int64
-	mismatch                      int64
+	mismatch, altEvals            int64
 	failStage                     map[string]int64
 }
 
@@ -266,6 +320,7 @@ func main() {
 	keys := polyenv.Keys(20)
 	polyenv.Setup(0, keys[:4])
 	vconf := &config.VBFTConfig{BlockMsgDelay: 10000, HashMsgDelay: 10000, PeerHandshakeTimeout: 10, MaxBlockChangeView: 1000}
+	altKeys, altConf = keys, vconf
 
 	// SHA-512 chain of raw VRF values (deterministic enumeration, not "all seeds")
 	chain := make([]vconfig.VRFValue, chainFull)
@@ -362,8 +417,19 @@ func main() {
 		}
 		var t tally
 		t.failStage = map[string]int64{}
-		srvA := vbft.VerifSelServer(j.idx[0])
-		srvB := vbft.VerifSelServer(j.idx[len(j.idx)-1])
+		// every server has an INSTALLED chain config (Server.config); the selection must be a function of the PASSED
+		// inputs only. srvA/srvB: installed == passed (separate copies). alts: installed differs from the passed one.
+		srvA := vbft.VerifSelServerWithConfig(j.idx[0], cloneCfg(c))
+		srvB := vbft.VerifSelServerWithConfig(j.idx[len(j.idx)-1], cloneCfg(c))
+		type altSrv struct {
+			name string
+			srv  *vbft.Server
+		}
+		var alts []altSrv
+		for _, a := range installedAlternatives(j.d, c) {
+			alts = append(alts, altSrv{a.name, vbft.VerifSelServerWithConfig(j.idx[0], a.cfg)})
+		}
+		alts = append(alts, altSrv{"none-installed", vbft.VerifSelServer(j.idx[0])})
 		report := func(level, check, what string, seed string, s sel, extra map[string]any) {
 			d := map[string]any{"config": j.d, "level": level, "detail": what, "seed": seed, "pos_table": tableSnap,
 				"proposers": s.P, "endorsers": s.E, "committers": s.Cm}
@@ -374,6 +440,11 @@ func main() {
 		}
 		judge := func(level string, s sel, seed func() string, again func() sel) {
 			t.evals++
+			if s.Panic != "" {
+				t.noSel++
+				report(level, "selection-panics", s.Panic, seed(), s, nil)
+				return
+			}
 			if !s.OK {
 				t.noSel++
 				st := "stage_" + s.Err
@@ -446,6 +517,30 @@ func main() {
 			seed := vbft.VerifSelectionSeed(blk)
 			judge("prod", s, func() string { return fmt.Sprintf("prevblock#%d seed=%s", k, hex.EncodeToString(seed[:])) },
 				func() sel { return prodSelect(srvB, blkNum, mkPrevBlock(k, j.idx), cloneCfg(c)) })
+			// the same passed inputs on servers whose installed config differs
+			for _, a := range alts {
+				sa := prodSelect(a.srv, blkNum, mkPrevBlock(k, j.idx), cloneCfg(c))
+				t.altEvals++
+				why := ""
+				switch {
+				case sa.Panic != "":
+					report("prod", "selection-panics", sa.Panic, fmt.Sprintf("prevblock#%d", k), sa, map[string]any{"installed_config": a.name})
+					continue
+				case sa.OK != s.OK:
+					why = "selected on one node, error on the other"
+				case !eqU32(sa.P, s.P) || !eqU32(sa.E, s.E) || !eqU32(sa.Cm, s.Cm):
+					why = "different participants"
+				}
+				if sa.OK {
+					if chk, what := wellFormed(sa, table, c.C); chk != "" {
+						report("prod", chk, what, fmt.Sprintf("prevblock#%d", k), sa, map[string]any{"installed_config": a.name})
+					}
+				}
+				if why != "" {
+					report("prod", "selection-depends-on-installed-config", why, fmt.Sprintf("prevblock#%d seed=%s", k, hex.EncodeToString(seed[:])), sa,
+						map[string]any{"installed_config": a.name, "with_installed_equal_to_passed": s})
+				}
+			}
 			// cross-validate the composition used at core level
 			cs := coreSelect(seed, c)
 			if cs.OK != s.OK || !eqU32(cs.P, s.P) || !eqU32(cs.E, s.E) || !eqU32(cs.Cm, s.Cm) {
@@ -467,6 +562,7 @@ func main() {
 		tot.prodSel += t.prodSel
 		tot.coreEvals += t.coreEvals
 		tot.mismatch += t.mismatch
+		tot.altEvals += t.altEvals
 		for k, v := range t.failStage {
 			tot.failStage[k] += v
 		}
@@ -580,7 +676,7 @@ func main() {
 		"all stakes are equal in this code base (GenesisChainConfig ignores stake): every peer gets SCALE=15 table slots",
 		"the peer order handed to GenesisChainConfig is an input (in production it is the proposer's map iteration order and travels inside the block)")
 	r.Finish(map[string]any{
-		"rule":                        "selection returned ⇒ members ∈ PosTable ∧ no duplicates ∧ |P|≥C+1 ∧ |E|,|Cm|≥2C ∧ (E∪Cm)∩P[:C]=∅ ∧ recomputation on copied inputs by another node equal ∧ inputs unmodified; GenesisChainConfig deterministic for equal ordered input",
+		"rule":                        "selection is a function of the passed inputs only (equal on servers with any installed config) ∧ never panics ∧ selection returned ⇒ members ∈ PosTable ∧ no duplicates ∧ |P|≥C+1 ∧ |E|,|Cm|≥2C ∧ (E∪Cm)∩P[:C]=∅ ∧ recomputation on copied inputs by another node equal ∧ inputs unmodified; GenesisChainConfig deterministic for equal ordered input",
 		"N_range":                     fmt.Sprintf("4..%d", maxN),
 		"C_values":                    "N/3 (GenesisChainConfig) and 0..floor((N-1)/3) hand-set",
 		"index_sets":                  []string{"contiguous 1..N", "gaps {1,3..N,N+5}"},
@@ -601,6 +697,8 @@ func main() {
 		"outcome_by_seed_family_and_stage": tot.failStage,
 		"per_N_C":                     perNCout,
 		"composition_mismatches":      tot.mismatch,
+		"installed_config_variants":   []string{"equal to passed", "N+1", "N+2", "N-1", "N-2", "other peer set same N", "C+1", "C-1 (if C>0)", "same peers other table (height+7)", "none installed"},
+		"evaluations_prod_under_differing_installed_config": tot.altEvals,
 		"table_shapes_N/len":          len(tableShapes),
 		"traces_validated_against_impl": tot.prodEvals,
 	})
